@@ -6,7 +6,10 @@ CONSTANTS NC = 4
  MaxSteps = 0
  RestartAnywhere = TRUE
  Touch = {0, 1, 2, 3, 4}
+ VMaps = {0, 1, 2, 3, 4, 5, 6}
+ Persist = TRUE
+ MaxChg = 4
  Dev = {}
-INVARIANTS TypeOK TopIsFullSort
+INVARIANTS TypeOK TopIsFullSort FileOK
 PROPERTIES RestartKeepsTop
 CHECK_DEADLOCK FALSE
